@@ -1027,7 +1027,13 @@ func (fr *Frame) enterLoop(li *loopInfo, pre *State) *State {
 	// 3. havoc
 	hs := pre.clone()
 	mod := fx.eng.loopModset(fr.fn, li)
-	fx.havocHeaps(hs, mod)
+	fx.havocHeapsR(hs, mod, func(v ssa.Value) (Term, bool) {
+		x, ok := fr.env[v]
+		if !ok || x.t == "" {
+			return "", false
+		}
+		return x.t, true
+	})
 	for _, ins := range b.Instrs {
 		phi, ok := ins.(*ssa.Phi)
 		if !ok {
